@@ -5,6 +5,7 @@ import hashlib
 import json
 import os
 import random
+import re
 import resource
 import shutil
 import subprocess
@@ -46,7 +47,7 @@ MODES = {
     "cov": ("gcc", ["-std=c11", "-O0", "-g", "-msse4.2", "--coverage", "-fprofile-update=atomic"]),
 }
 
-WRAPS = "-Wl,--wrap=malloc,--wrap=calloc,--wrap=realloc,--wrap=free,--wrap=edn_arena_alloc"
+WRAPS = "-Wl,--wrap=malloc,--wrap=calloc,--wrap=realloc,--wrap=free,--wrap=edn_arena_alloc,--wrap=edn_arena_create,--wrap=edn_arena_destroy"
 
 
 def log(*a):
@@ -131,6 +132,47 @@ def _run_cc(cmd):
 
 HELPERS = ["N_I64", "N_D8", "N_DBL", "N_GCD", "S_IDENT", "B_BUILDER"]
 
+_CLASH_RE = re.compile(r"error: (?:redefinition of|conflicting types for|conflicting type qualifiers for|redeclaration of enumerator|static declaration of) "
+                       r"['\u2018](?:(?:struct|union|enum) )?(\w+)['\u2019]")
+
+
+def unity_renames(cfg):
+    """-D flags for the single-translation-unit builds (harness, extractor, probe #include every src/*.c): two library files may
+    define the same file-private name (a static function, table, struct tag) - legal for the library, whose files are compiled
+    separately, but a redefinition inside one translation unit.  That is a limitation of OUR build, not a change of behaviour, so
+    each such name N is compiled as N__<file> in every file (-DN=VF_CAT(N__,VF_FILE); the harness sets VF_FILE before each
+    #include).  Names are found from the compiler's own redefinition errors on harness/probe.c; with no clash (the usual case)
+    the list is empty and nothing is renamed.  A name that is shared on purpose (defined in one file, used in another) would no
+    longer link and the build fails as it did before.  Cached per source hash and configuration."""
+    bd = build_dir()
+    cache = os.path.join(bd, "renames-%s.json" % cfg)
+    if os.path.exists(cache):
+        names = json.load(open(cache))
+    else:
+        with Lock("renames-%s" % cfg):
+            if os.path.exists(cache):
+                names = json.load(open(cache))
+            else:
+                inc = ["-I" + os.path.join(REPO, "src"), "-I" + os.path.join(REPO, "include")]
+                names = []
+                for _ in range(6):
+                    r = subprocess.run(["gcc", "-std=c11", "-msse4.2", "-fsyntax-only", "-w"] + _rename_flags(names) + CFGS[cfg] + inc +
+                                       [os.path.join(VERIF, "harness", "probe.c")], stdout=subprocess.PIPE, stderr=subprocess.STDOUT, text=True, errors="replace")
+                    more = sorted(set(_CLASH_RE.findall(r.stdout)) - set(names)) if r.returncode != 0 else []
+                    if not more:
+                        break
+                    names += more
+                with open(cache + ".tmp%d" % os.getpid(), "w") as fh:
+                    json.dump(names, fh)
+                os.rename(cache + ".tmp%d" % os.getpid(), cache)
+    return _rename_flags(names)
+
+
+def _rename_flags(names):
+    if not names:
+        return []
+    return ["-DVF_CAT_(a,b)=a##b", "-DVF_CAT(a,b)=VF_CAT_(a,b)"] + ["-D%s=VF_CAT(%s__,VF_FILE)" % (n, n) for n in names]
+
 
 def helper_flags(cfg):
     """-DHAVE_<X> for every static helper of the library that still exists with the signature the harness calls
@@ -150,13 +192,14 @@ def helper_flags(cfg):
                     if h == "N_GCD" and cfg not in ("clj", "both"):
                         have[h] = False
                         continue
-                    r = subprocess.run(["gcc", "-std=c11", "-msse4.2", "-fsyntax-only", "-Werror=implicit-function-declaration", "-DPROBE_" + h] + CFGS[cfg] + inc +
+                    r = subprocess.run(["gcc", "-std=c11", "-msse4.2", "-fsyntax-only", "-Werror=implicit-function-declaration", "-DPROBE_" + h] + unity_renames(cfg) + CFGS[cfg] + inc +
                                        [os.path.join(VERIF, "harness", "probe.c")], stdout=subprocess.PIPE, stderr=subprocess.STDOUT, text=True)
                     have[h] = r.returncode == 0
                 with open(cache + ".tmp", "w") as fh:
                     json.dump(have, fh)
                 os.rename(cache + ".tmp", cache)
-    return ["-DHAVE_" + h for h in HELPERS if have.get(h)], [h for h in HELPERS if not have.get(h) and not (h == "N_GCD" and cfg not in ("clj", "both"))]
+    return (["-DHAVE_" + h for h in HELPERS if have.get(h)] + unity_renames(cfg),
+            [h for h in HELPERS if not have.get(h) and not (h == "N_GCD" and cfg not in ("clj", "both"))])
 
 
 def missing_helpers(cfg="core"):
